@@ -27,7 +27,8 @@ for sid in ids:
             rules.append(f"{pid} {r.split('[')[1].split(']')[0]}" if "[" in r else pid)
     n_det += 1 if rules else 0
     rows.append(f"| `seeded/{sid}` | {m.get('property', '?')} | {m.get('summary', '').strip().replace('|', '/')[:200]} | {', '.join(rules) if rules else '**not detected**'} |")
-table = (f"<!-- seed-table:begin -->\n**Current tally: {n_det} of {len(ids)} kept seeds are reported by the checks.**\n\n"
+table = (f"<!-- seed-table:begin -->\n**Current tally: {n_det} of {len(ids)} kept seeds are reported by the checks** (only a `VIOLATION` line with exit 1 counts; three more seeds are "
+         "retired under `seeded_retired/`: R3_C19 and R5_C19 edited a function that the repair D22 replaced, R4_C14 weakened the guard that masked D27 and is harmless since that repair).\n\n"
          "| seed | breaks | change | caught by (current checks) |\n|---|---|---|---|\n" + "\n".join(rows) + "\n<!-- seed-table:end -->")
 p = os.path.join(V, "DESIGN.md")
 s = open(p).read()
